@@ -171,7 +171,7 @@ Proof.
 Qed.
 
 Lemma existsb_downs p l : existsb (fun e : event => p (snd e)) (downs l) = existsb p l.
-Proof. induction l; [reflexivity|]. cbn. rewrite IHl. reflexivity. Qed.
+Proof. induction l; [reflexivity|]. cbn [downs map existsb snd]. fold (downs l). rewrite IHl. reflexivity. Qed.
 
 (* exists(p) = "some node satisfies p"; p is evaluated in pre-order and never after the first hit *)
 Theorem exists_contract p t :
@@ -180,4 +180,732 @@ Proof.
   unfold exists_. change (fun l => if p l then Stop else Continue) with (hitf p).
   rewrite apply_contract. rewrite hit_upto. destruct (hit_pruned p t) as [H1 H2]. rewrite H1.
   f_equal. rewrite existsb_downs. apply existsb_upto_first.
+Qed.
+
+(* ------------------------------------------------------------------ normal forms of the model's clauses *)
+Lemma tp_unfold fu l' cs' c r :
+  transform_parent (mkT (Node l' cs') c r) (rcall PUp fu) =
+  match r with
+  | Continue => let '(l'', ch2, r2) := fu l' in ([(PUp, l')], mkT (Node l'' cs') (ch2 || c) r2)
+  | _ => ([], mkT (Node l' cs') c r)
+  end.
+Proof.
+  destruct r; try reflexivity.
+  unfold transform_parent, or_flag, rcall, bind, ret. cbn [rec data changed].
+  destruct (fu l') as [[l'' ch2] r2]. reflexivity.
+Qed.
+
+Lemma mco_vec_unfold kk l cs :
+  map_children_on IVec kk l cs =
+  let (lc, rc) := map_until_stop_from kk Continue false cs in
+  (lc, mkT (Node l (data rc)) (changed rc) (rec rc)).
+Proof.
+  unfold map_children_on, map_until_stop_and_collect, bind, ret.
+  destruct (map_until_stop_from kk Continue false cs) as [lc rc]. rewrite app_nil_r. reflexivity.
+Qed.
+
+Lemma tdu_unfold im fd fu l cs :
+  transform_down_up im fd fu (Node l cs) =
+  let '(l', ch, r) := fd l in
+  match r with
+  | Continue =>
+      let (lc, rc) := map_children_on im (transform_down_up im fd fu) l' cs in
+      let (lu, ru) := transform_parent (mkT (data rc) (changed rc || ch) (rec rc)) (rcall PUp fu) in
+      ((PDown, l) :: lc ++ lu, ru)
+  | Jump =>
+      let (lu, ru) := transform_parent (mkT (Node l' cs) ch Continue) (rcall PUp fu) in
+      ((PDown, l) :: lu, ru)
+  | Stop => ([(PDown, l)], mkT (Node l' cs) ch Stop)
+  end.
+Proof.
+  cbn [transform_down_up]. destruct (fd l) as [[l' ch] r].
+  destruct r; unfold transform_children, or_flag, bind, ret; cbn [rec data changed].
+  - destruct (map_children_on im (transform_down_up im fd fu) l' cs) as [lc rc].
+    rewrite app_nil_r.
+    destruct (transform_parent _ _) as [lu ru]. reflexivity.
+  - destruct (transform_parent _ _) as [lu ru]. reflexivity.
+  - reflexivity.
+Qed.
+
+(* ================================================================== 3. the combined contract: scan automaton *)
+Section Scan.
+  Variables fd fu : rcb.
+  Notation scan' := (scan fd fu).
+  Notation k := (transform_down_up IVec fd fu).
+
+  Lemma scan_app s a b : scan' s (a ++ b) = scan' (scan' s a) b.
+  Proof. apply fold_left_app. Qed.
+  Lemma scan_cons s e r : scan' s (e :: r) = scan' (step fd fu s e) r.
+  Proof. reflexivity. Qed.
+
+  Definition inert (m : mode) : Prop := match m with Halt | Skip _ => True | _ => False end.
+  Definition live (m : mode) : Prop := m = Run \/ m = UpJ.
+
+  (* in Skip / Halt mode nothing is invoked and every node keeps its label *)
+  Lemma scan_inert_list cs :
+    Forall (fun t => forall m stk lg po, inert m ->
+              scan' (mkS m stk lg po) (brackets t) = mkS m stk lg (po ++ postorder t)) cs ->
+    forall m stk lg po, inert m ->
+      scan' (mkS m stk lg po) (flat_map brackets cs) = mkS m stk lg (po ++ flat_map postorder cs).
+  Proof.
+    induction 1 as [|c r Hc _ IH]; intros m stk lg po Hm.
+    - cbn. rewrite app_nil_r. reflexivity.
+    - cbn [flat_map]. rewrite scan_app, (Hc _ _ _ _ Hm), (IH _ _ _ _ Hm), app_assoc. reflexivity.
+  Qed.
+  Lemma scan_inert t : forall m stk lg po, inert m ->
+    scan' (mkS m stk lg po) (brackets t) = mkS m stk lg (po ++ postorder t).
+  Proof.
+    induction t as [l cs IH] using tree_induction. intros m stk lg po Hm.
+    cbn [brackets postorder]. rewrite scan_cons, scan_app.
+    destruct m as [|d| |]; try contradiction; cbn [step s_mode s_stk s_log s_post].
+    - rewrite (scan_inert_list cs IH (Skip (S d))) by exact I.
+      cbn. rewrite app_assoc. reflexivity.
+    - rewrite (scan_inert_list cs IH Halt) by exact I.
+      cbn. rewrite app_assoc. reflexivity.
+  Qed.
+
+  Definition tdu_ok (t : tree) : Prop :=
+    let r := k t in
+    (forall m stk lg po, live m ->
+       scan' (mkS m stk lg po) (brackets t) =
+       mkS (mode_of (rec (snd r))) stk (lg ++ fst r) (po ++ postorder (data (snd r))))
+    /\ shape (data (snd r)) = shape t
+    /\ changed (snd r) = existsb (reported fd fu) (fst r).
+
+  Lemma mus_stop {A} (f : A -> M (Tr A)) tr l : map_until_stop_from f Stop tr l = ([], mkT l tr Stop).
+  Proof. induction l as [|x l IH]; [reflexivity|]. cbn [map_until_stop_from]. rewrite IH. reflexivity. Qed.
+
+  Lemma mus_ok cs : Forall tdu_ok cs -> forall last tr,
+    let r := map_until_stop_from k last tr cs in
+    (forall stk lg po,
+       scan' (mkS (mode_of last) stk lg po) (flat_map brackets cs) =
+       mkS (mode_of (rec (snd r))) stk (lg ++ fst r) (po ++ flat_map postorder (data (snd r))))
+    /\ map shape (data (snd r)) = map shape cs
+    /\ changed (snd r) = tr || existsb (reported fd fu) (fst r).
+  Proof.
+    induction 1 as [|c r0 Hc _ IH]; intros last tr.
+    - cbn. repeat split; try (intros; rewrite !app_nil_r; reflexivity). rewrite orb_false_r. reflexivity.
+    - destruct last.
+      3:{ rewrite mus_stop. cbn [fst snd data changed rec mode_of existsb flat_map].
+          repeat split; [|rewrite orb_false_r; reflexivity].
+          intros. rewrite scan_app, scan_inert by exact I.
+          rewrite (scan_inert_list r0) by (try exact I; apply Forall_forall; intros; apply scan_inert; assumption).
+          rewrite !app_nil_r, app_assoc. reflexivity. }
+      all: cbn [map_until_stop_from];
+        destruct Hc as (Hc1 & Hc2 & Hc3);
+        destruct (k c) as [lc resc] eqn:Ec; cbn [fst snd] in Hc1, Hc2, Hc3;
+        cbn [bind];
+        specialize (IH (rec resc) (tr || changed resc));
+        destruct (map_until_stop_from k (rec resc) (tr || changed resc) r0) as [lr restr] eqn:Er;
+        cbn [fst snd] in IH; destruct IH as (I1 & I2 & I3);
+        cbn [bind ret fst snd data changed rec flat_map map];
+        (repeat split;
+         [ intros stk lg po; rewrite scan_app, Hc1 by (unfold live; cbn; auto); rewrite I1;
+           rewrite !app_nil_r, !app_assoc; reflexivity
+         | rewrite Hc2, I2; reflexivity
+         | rewrite I3, Hc3, app_nil_r, existsb_app; btauto ]).
+  Qed.
+
+  Lemma tnr_of_mode_of r : tnr_of (mode_of r) = r.
+  Proof. destruct r; reflexivity. Qed.
+
+  Lemma tdu_ok_all t : tdu_ok t.
+  Proof.
+    induction t as [l cs IH] using tree_induction.
+    unfold tdu_ok. rewrite tdu_unfold. cbn [brackets].
+    destruct (fd l) as [[l' ch] r] eqn:Ed.
+    pose proof (mus_ok cs IH Continue false) as Hm. cbn zeta in Hm.
+    assert (Hrep : reported fd fu (PDown, l) = ch) by (cbn; rewrite Ed; reflexivity).
+    assert (Hinert : forall m stk lg po, inert m ->
+              scan' (mkS m stk lg po) (flat_map brackets cs) = mkS m stk lg (po ++ flat_map postorder cs))
+      by (apply scan_inert_list, Forall_forall; intros; apply scan_inert; assumption).
+    assert (Hstep : forall m stk lg po, live m ->
+              step fd fu (mkS m stk lg po) (BD l) =
+              mkS (match r with Continue => Run | Jump => Skip 0 | Stop => Halt end) (l' :: stk) (lg ++ [(PDown, l)]) po)
+      by (intros m stk lg po [-> | ->]; cbn; rewrite Ed; reflexivity).
+    destruct r.
+    - (* f_down says Continue *)
+      rewrite mco_vec_unfold.
+      destruct (map_until_stop_from k Continue false cs) as [lc rc] eqn:Ec.
+      cbn [fst snd] in Hm. destruct Hm as (M1 & M2 & M3).
+      destruct rc as [cs' chc rr]. cbn [data changed rec] in *.
+      rewrite tp_unfold.
+      destruct rr.
+      + destruct (fu l') as [[l'' ch2] r2] eqn:Eu. cbn [fst snd data changed rec].
+        repeat split.
+        * intros m stk lg po Hl. rewrite scan_cons, scan_app, Hstep by exact Hl.
+          change Run with (mode_of Continue). rewrite M1. cbn. rewrite Eu. cbn.
+          repeat rewrite <- app_assoc. reflexivity.
+        * cbn. rewrite M2. reflexivity.
+        * rewrite M3. cbn [existsb]. rewrite !existsb_app. cbn [existsb]. rewrite Hrep.
+          assert (reported fd fu (PUp, l') = ch2) as -> by (cbn; rewrite Eu; reflexivity). cbn. btauto.
+      + cbn [fst snd data changed rec]. repeat split.
+        * intros m stk lg po Hl. rewrite scan_cons, scan_app, Hstep by exact Hl.
+          change Run with (mode_of Continue). rewrite M1. cbn.
+          rewrite !app_nil_r. repeat rewrite <- app_assoc. reflexivity.
+        * cbn. rewrite M2. reflexivity.
+        * rewrite M3, app_nil_r. cbn [existsb]. rewrite Hrep. cbn. btauto.
+      + cbn [fst snd data changed rec]. repeat split.
+        * intros m stk lg po Hl. rewrite scan_cons, scan_app, Hstep by exact Hl.
+          change Run with (mode_of Continue). rewrite M1. cbn.
+          rewrite !app_nil_r. repeat rewrite <- app_assoc. reflexivity.
+        * cbn. rewrite M2. reflexivity.
+        * rewrite M3, app_nil_r. cbn [existsb]. rewrite Hrep. cbn. btauto.
+    - (* f_down says Jump: children shortcut, f_up of the node still runs *)
+      rewrite tp_unfold.
+      destruct (fu l') as [[l'' ch2] r2] eqn:Eu. cbn [fst snd data changed rec].
+      repeat split.
+      + intros m stk lg po Hl. rewrite scan_cons, scan_app, Hstep by exact Hl.
+        rewrite Hinert by exact I.
+        cbn. rewrite Eu. cbn. repeat rewrite <- app_assoc. reflexivity.
+      + cbn [existsb]. rewrite Hrep.
+        assert (reported fd fu (PUp, l') = ch2) as -> by (cbn; rewrite Eu; reflexivity). btauto.
+    - (* f_down says Stop *)
+      cbn [fst snd data changed rec].
+      repeat split.
+      + intros m stk lg po Hl. rewrite scan_cons, scan_app, Hstep by exact Hl.
+        rewrite Hinert by exact I.
+        cbn. repeat rewrite <- app_assoc. reflexivity.
+      + cbn [existsb]. rewrite Hrep. btauto.
+  Qed.
+End Scan.
+
+(* ================================================================== 4. the three map_children implementations *)
+Section MapLog.
+  (* a projection of logs that is a monoid morphism (identity, or a filter) *)
+  Variable h : list event -> list event.
+  Hypothesis h_nil : h [] = [].
+  Hypothesis h_app : forall a b, h (a ++ b) = h a ++ h b.
+
+  Lemma mus_maplog (f g : tree -> M (Tr tree)) cs :
+    Forall (fun c => f c = (h (fst (g c)), snd (g c))) cs ->
+    forall last tr,
+      map_until_stop_from f last tr cs =
+      (h (fst (map_until_stop_from g last tr cs)), snd (map_until_stop_from g last tr cs)).
+  Proof.
+    induction 1 as [|c r Hc _ IH]; intros last tr.
+    - cbn. rewrite h_nil. reflexivity.
+    - destruct last; cbn [map_until_stop_from].
+      1,2: rewrite Hc; destruct (g c) as [lc resc]; cbn [fst snd bind];
+           rewrite IH; destruct (map_until_stop_from g (rec resc) (tr || changed resc) r) as [lr restr];
+           cbn [fst snd bind ret]; rewrite !app_nil_r, h_app; reflexivity.
+      rewrite IH. destruct (map_until_stop_from g Stop tr r) as [lr restr].
+      cbn [fst snd bind ret]. rewrite !app_nil_r. reflexivity.
+  Qed.
+
+  Lemma mco_maplog im (f g : tree -> M (Tr tree)) l cs :
+    Forall (fun c => f c = (h (fst (g c)), snd (g c))) cs ->
+    map_children_on im f l cs = (h (fst (map_children_on im g l cs)), snd (map_children_on im g l cs)).
+  Proof.
+    intro H. pose proof (mus_maplog f g cs H Continue false) as E.
+    unfold map_children_on, map_until_stop_and_collect.
+    destruct im; [| destruct cs; [cbn; rewrite h_nil; reflexivity|] ..];
+      rewrite E; destruct (map_until_stop_from g Continue false _) as [lr restr];
+      cbn [fst snd bind ret]; try destruct (changed restr); cbn [fst snd bind ret]; rewrite !app_nil_r; reflexivity.
+  Qed.
+End MapLog.
+
+Lemma mco_ext im (f g : tree -> M (Tr tree)) l cs :
+  Forall (fun c => f c = g c) cs -> map_children_on im f l cs = map_children_on im g l cs.
+Proof.
+  intro H. rewrite (mco_maplog (fun x => x) eq_refl (fun _ _ => eq_refl) im f g).
+  - symmetry. apply surj.
+  - eapply Forall_impl; [|exact H]. cbn. intros a ->. apply surj.
+Qed.
+
+Lemma mco_concrete_vec (kk : tree -> M (Tr tree)) l cs :
+  map_children_on IConcrete kk l cs = map_children_on IVec kk l cs.
+Proof. destruct cs; reflexivity. Qed.
+
+(* the result of map_children is the same node with (possibly) new children *)
+Lemma mco_node im kk l cs : exists cs', data (snd (map_children_on im kk l cs)) = Node l cs'.
+Proof.
+  unfold map_children_on, map_until_stop_and_collect.
+  destruct im; [| destruct cs; [eexists; reflexivity|] ..];
+    destruct (map_until_stop_from kk Continue false _) as [lr restr]; cbn [bind ret snd];
+    try destruct (changed restr); cbn; eexists; reflexivity.
+Qed.
+
+Theorem tdu_concrete_eq_vec fd fu t :
+  transform_down_up IConcrete fd fu t = transform_down_up IVec fd fu t.
+Proof.
+  induction t as [l cs IH] using tree_induction. rewrite !tdu_unfold.
+  destruct (fd l) as [[l' ch] r]. destruct r; try reflexivity.
+  rewrite mco_concrete_vec, (mco_ext IVec _ _ l' cs IH). reflexivity.
+Qed.
+
+(* honest callbacks: an unreported result is an unchanged tree *)
+Lemma honest_same f l : honest f -> flag_of f l = false -> new_label f l = l.
+Proof.
+  intros H E. destruct (Z.eq_dec (new_label f l) l) as [e|n]; [exact e|].
+  rewrite (H l n) in E. discriminate.
+Qed.
+
+Section Honest.
+  Variables fd fu : rcb.
+  Hypothesis Hd : honest fd.
+  Hypothesis Hu : honest fu.
+  Notation k := (transform_down_up IVec fd fu).
+
+  Lemma mus_unchanged cs :
+    Forall (fun c => changed (snd (k c)) = false -> data (snd (k c)) = c) cs ->
+    forall last tr, changed (snd (map_until_stop_from k last tr cs)) = false ->
+                    tr = false /\ data (snd (map_until_stop_from k last tr cs)) = cs.
+  Proof.
+    induction 1 as [|c r Hc _ IH]; intros last tr.
+    - cbn. auto.
+    - destruct last; cbn [map_until_stop_from].
+      3:{ rewrite mus_stop. cbn. auto. }
+      all: destruct (k c) as [lc resc]; cbn [fst snd bind] in *;
+           specialize (IH (rec resc) (tr || changed resc));
+           destruct (map_until_stop_from k (rec resc) (tr || changed resc) r) as [lr restr];
+           cbn [fst snd bind ret data changed] in *; intro E; destruct (IH E) as [E1 E2];
+           apply orb_false_iff in E1 as [-> E1]; rewrite (Hc E1), E2; auto.
+  Qed.
+
+  Lemma tdu_unchanged t : changed (snd (k t)) = false -> data (snd (k t)) = t.
+  Proof.
+    induction t as [l cs IH] using tree_induction. rewrite tdu_unfold.
+    pose proof (honest_same fd l Hd) as Sd. unfold flag_of, new_label in Sd.
+    destruct (fd l) as [[l' ch] r]. cbn [fst snd] in Sd.
+    destruct r.
+    - rewrite mco_vec_unfold.
+      pose proof (mus_unchanged cs IH Continue false) as Hm.
+      destruct (map_until_stop_from k Continue false cs) as [lc rc]. cbn [fst snd] in Hm.
+      destruct rc as [cs' chc rr]. cbn [data changed rec] in *.
+      rewrite tp_unfold.
+      pose proof (honest_same fu l' Hu) as Su. unfold flag_of, new_label in Su.
+      destruct rr; [destruct (fu l') as [[l'' ch2] r2]; cbn [fst snd] in Su|..];
+        cbn [fst snd data changed]; intro E;
+        repeat (apply orb_false_iff in E; destruct E as [? E]); subst;
+        try rewrite (Su eq_refl); rewrite (Sd eq_refl); destruct Hm as [_ ->]; reflexivity.
+    - rewrite tp_unfold.
+      pose proof (honest_same fu l' Hu) as Su. unfold flag_of, new_label in Su.
+      destruct (fu l') as [[l'' ch2] r2]; cbn [fst snd] in Su.
+      cbn [fst snd data changed]. intro E. apply orb_false_iff in E as [-> ->].
+      rewrite (Su eq_refl), (Sd eq_refl). reflexivity.
+    - cbn [fst snd data changed]. intros ->. rewrite (Sd eq_refl). reflexivity.
+  Qed.
+
+  (* Arc<dyn> map_children (rebuild only when a child reported a change) agrees with the others *)
+  Theorem tdu_dyn_eq_vec t : transform_down_up IDyn fd fu t = transform_down_up IVec fd fu t.
+  Proof.
+    induction t as [l cs IH] using tree_induction. rewrite !tdu_unfold.
+    destruct (fd l) as [[l' ch] r]. destruct r; try reflexivity.
+    assert (map_children_on IDyn (transform_down_up IDyn fd fu) l' cs = map_children_on IVec k l' cs) as ->;
+      [|reflexivity].
+    rewrite (mco_ext IDyn _ _ l' cs IH).
+    unfold map_children_on, map_until_stop_and_collect.
+    destruct cs as [|c0 cs0]; [reflexivity|].
+    pose proof (mus_unchanged (c0 :: cs0)) as Hm.
+    specialize (Hm (proj2 (Forall_forall _ _) (fun x _ => tdu_unchanged x)) Continue false).
+    destruct (map_until_stop_from k Continue false (c0 :: cs0)) as [lc rc]. cbn [fst snd] in Hm.
+    cbn [bind]. destruct (changed rc) eqn:E; [reflexivity|].
+    destruct (Hm eq_refl) as [_ ->]. cbn [ret]. destruct rc; cbn in *. subst. reflexivity.
+  Qed.
+End Honest.
+
+(* ================================================================== 5. transform_down / transform_up / visit
+   are projections of the combined traversal *)
+Lemma td_unfold im f l cs :
+  transform_down im f (Node l cs) =
+  let '(l', ch, r) := f l in
+  match r with
+  | Continue =>
+      let (lc, rc) := map_children_on im (transform_down im f) l' cs in
+      ((PDown, l) :: lc, mkT (data rc) (changed rc || ch) (rec rc))
+  | Jump => ([(PDown, l)], mkT (Node l' cs) ch Continue)
+  | Stop => ([(PDown, l)], mkT (Node l' cs) ch Stop)
+  end.
+Proof.
+  cbn [transform_down]. destruct (f l) as [[l' ch] r].
+  destruct r; unfold transform_children, or_flag, bind, ret; cbn [rec data changed]; try reflexivity.
+  destruct (map_children_on im (transform_down im f) l' cs) as [lc rc]. rewrite app_nil_r. reflexivity.
+Qed.
+
+Lemma tu_unfold im f l cs :
+  transform_up im f (Node l cs) =
+  let (lc, rc) := map_children_on im (transform_up im f) l cs in
+  let (lu, ru) := transform_parent rc (rcall PUp f) in (lc ++ lu, ru).
+Proof.
+  cbn [transform_up]. unfold bind.
+  destruct (map_children_on im (transform_up im f) l cs) as [lc rc]. reflexivity.
+Qed.
+
+Lemma filter_down_app (a b : list event) : filter is_down (a ++ b) = filter is_down a ++ filter is_down b.
+Proof. apply filter_app. Qed.
+Lemma filter_up_app (a b : list event) : filter is_up (a ++ b) = filter is_up a ++ filter is_up b.
+Proof. apply filter_app. Qed.
+
+(* transform_down(f) = transform_down_up(f, identity) without the f_up events *)
+Theorem transform_down_as_down_up im f t :
+  transform_down im f t =
+  (filter is_down (fst (transform_down_up im f id_cb t)), snd (transform_down_up im f id_cb t)).
+Proof.
+  induction t as [l cs IH] using tree_induction. rewrite td_unfold, tdu_unfold.
+  destruct (f l) as [[l' ch] r]. destruct r.
+  - rewrite (mco_maplog (filter is_down) eq_refl filter_down_app im _ _ l' cs IH).
+    destruct (mco_node im (transform_down_up im f id_cb) l' cs) as [cs' Hn].
+    destruct (map_children_on im (transform_down_up im f id_cb) l' cs) as [lc rc]. cbn [fst snd] in *.
+    rewrite Hn, tp_unfold. unfold id_cb.
+    destruct rc as [d c r]; cbn [data changed rec] in *; subst d.
+    destruct r; cbn [fst snd filter is_down]; rewrite ?app_nil_r, ?filter_down_app; cbn; rewrite ?app_nil_r;
+      reflexivity.
+  - rewrite tp_unfold. reflexivity.
+  - reflexivity.
+Qed.
+
+(* transform_up(f) = transform_down_up(identity, f) without the f_down events *)
+Theorem transform_up_as_down_up im f t :
+  transform_up im f t =
+  (filter is_up (fst (transform_down_up im id_cb f t)), snd (transform_down_up im id_cb f t)).
+Proof.
+  induction t as [l cs IH] using tree_induction. rewrite tu_unfold, tdu_unfold.
+  change (id_cb l) with (l, false, Continue). cbv iota beta.
+  rewrite (mco_maplog (filter is_up) eq_refl filter_up_app im _ _ l cs IH).
+  destruct (mco_node im (transform_down_up im id_cb f) l cs) as [cs' Hn].
+  destruct (map_children_on im (transform_down_up im id_cb f) l cs) as [lc rc]. cbn [fst snd] in *.
+  destruct rc as [d c r]; cbn [data changed rec] in *; subst d. rewrite orb_false_r.
+  rewrite tp_unfold.
+  destruct r; [destruct (f l) as [[l'' ch2] r2]|..]; cbn [fst snd filter is_up is_down negb];
+    rewrite ?filter_up_app; cbn; rewrite ?app_nil_r; reflexivity.
+Qed.
+
+(* visit = rewrite with callbacks that change nothing *)
+Lemma visit_unfold fd fu l cs :
+  visit fd fu (Node l cs) =
+  match fd l with
+  | Continue =>
+      let (lc, rc) := apply_until_stop_from (visit fd fu) Continue cs in
+      match rc with
+      | Continue => ((PDown, l) :: lc ++ [(PUp, l)], fu l)
+      | _ => ((PDown, l) :: lc, rc)
+      end
+  | Jump => ([(PDown, l); (PUp, l)], fu l)
+  | Stop => ([(PDown, l)], Stop)
+  end.
+Proof.
+  cbn [visit]. unfold bind, visit_children, visit_parent, apply_until_stop, ret.
+  destruct (fd l); try reflexivity.
+  destruct (apply_until_stop_from (visit fd fu) Continue cs) as [lc rc].
+  destruct rc; rewrite ?app_nil_r; reflexivity.
+Qed.
+
+Section VisitAsRewrite.
+  Variables fd fu : vcb.
+  Notation k := (transform_down_up IVec (vlift fd) (vlift fu)).
+  Definition visit_rel (c : tree) : Prop :=
+    visit fd fu c = (fst (k c), rec (snd (k c))) /\ data (snd (k c)) = c /\ changed (snd (k c)) = false.
+
+  Lemma aus_mus cs : Forall visit_rel cs -> forall last tr, last <> Stop ->
+    apply_until_stop_from (visit fd fu) last cs =
+      (fst (map_until_stop_from k last tr cs), rec (snd (map_until_stop_from k last tr cs)))
+    /\ data (snd (map_until_stop_from k last tr cs)) = cs
+    /\ changed (snd (map_until_stop_from k last tr cs)) = tr.
+  Proof.
+    induction 1 as [|c r (Hc1 & Hc2 & Hc3) _ IH]; intros last tr Hl.
+    - cbn. auto.
+    - assert (E : map_until_stop_from k last tr (c :: r) =
+                  bind (k c) (fun res =>
+                  bind (map_until_stop_from k (rec res) (tr || changed res) r) (fun rest =>
+                  ret (mkT (data res :: data rest) (changed rest) (rec rest)))))
+        by (destruct last; [reflexivity|reflexivity|contradiction]).
+      rewrite E. cbn [apply_until_stop_from]. rewrite Hc1.
+      destruct (k c) as [lc resc]. cbn [fst snd bind] in *. rewrite Hc3, orb_false_r.
+      destruct (rec resc) eqn:Er.
+      3:{ rewrite mus_stop. cbn. rewrite Hc2, app_nil_r. auto. }
+      all: specialize (IH (rec resc) tr); rewrite Er in IH;
+           destruct IH as (I1 & I2 & I3); [discriminate|];
+           fold (apply_until_stop_from (visit fd fu)); rewrite I1;
+           destruct (map_until_stop_from k _ tr r) as [lr restr];
+           cbn [fst snd bind ret data changed rec] in *; rewrite Hc2, I2, I3, app_nil_r; auto.
+  Qed.
+
+  Lemma visit_rel_all t : visit_rel t.
+  Proof.
+    induction t as [l cs IH] using tree_induction. unfold visit_rel.
+    rewrite visit_unfold, tdu_unfold. change (vlift fd l) with (l, false, fd l). cbv iota beta.
+    destruct (fd l).
+    - rewrite mco_vec_unfold.
+      destruct (aus_mus cs IH Continue false) as (A1 & A2 & A3); [discriminate|].
+      rewrite A1.
+      destruct (map_until_stop_from k Continue false cs) as [lc rc]. cbn [fst snd] in *.
+      destruct rc as [d c r]; cbn [data changed rec] in *; subst.
+      rewrite tp_unfold. change (vlift fu l) with (l, false, fu l). cbv iota beta.
+      destruct r; cbn [fst snd data changed rec orb]; rewrite ?app_nil_r; auto.
+    - rewrite tp_unfold. change (vlift fu l) with (l, false, fu l). cbv iota beta. cbn [fst snd data changed rec orb]. auto.
+    - cbn [fst snd data changed rec]. auto.
+  Qed.
+End VisitAsRewrite.
+
+Theorem visit_as_rewrite fd fu t :
+  visit fd fu t =
+  (fst (transform_down_up IVec (vlift fd) (vlift fu) t), rec (snd (transform_down_up IVec (vlift fd) (vlift fu) t))).
+Proof. exact (proj1 (visit_rel_all fd fu t)). Qed.
+
+(* ================================================================== 6. packaged contracts *)
+Lemma honest_id : honest id_cb.
+Proof. intros l H. exfalso. apply H. reflexivity. Qed.
+
+Lemma tdu_im_eq_vec im fd fu t :
+  impl_ok im fd fu -> transform_down_up im fd fu t = transform_down_up IVec fd fu t.
+Proof.
+  intro H. destruct im.
+  - reflexivity.
+  - apply tdu_concrete_eq_vec.
+  - destruct (H eq_refl) as [Hd Hu]. apply tdu_dyn_eq_vec; assumption.
+Qed.
+
+(* THE COMBINED CONTRACT: transform_down_up / rewrite behave exactly like the documented linear scan:
+   same callback invocations in the same order, same final directive, the output tree has the input's
+   shape and exactly the labels the scan assigns, and `transformed` is the OR of the reported flags. *)
+Theorem rewrite_contract im fd fu t :
+  impl_ok im fd fu ->
+  let r := transform_down_up im fd fu t in
+  let s := scan_tree fd fu t in
+  fst r = s_log s /\ rec (snd r) = tnr_of (s_mode s) /\
+  shape (data (snd r)) = shape t /\ postorder (data (snd r)) = s_post s /\
+  changed (snd r) = existsb (reported fd fu) (fst r).
+Proof.
+  intro H. cbv zeta. rewrite (tdu_im_eq_vec im fd fu t H).
+  destruct (tdu_ok_all fd fu t) as (S1 & S2 & S3).
+  unfold scan_tree. rewrite (S1 Run [] [] []) by (left; reflexivity).
+  cbn [s_log s_mode s_post app]. rewrite tnr_of_mode_of. auto.
+Qed.
+
+Theorem visit_contract fd fu t :
+  let r := visit fd fu t in
+  let s := scan_tree (vlift fd) (vlift fu) t in
+  fst r = s_log s /\ snd r = tnr_of (s_mode s).
+Proof.
+  cbv zeta. rewrite visit_as_rewrite. cbn [fst snd].
+  destruct (rewrite_contract IVec (vlift fd) (vlift fu) t) as (A & B & _); [discriminate|]. auto.
+Qed.
+
+Theorem transform_down_contract im f t :
+  impl_ok im f id_cb ->
+  let r := transform_down im f t in
+  let s := scan_tree f id_cb t in
+  fst r = filter is_down (s_log s) /\ rec (snd r) = tnr_of (s_mode s) /\
+  shape (data (snd r)) = shape t /\ postorder (data (snd r)) = s_post s /\
+  changed (snd r) = existsb (reported f id_cb) (fst r).
+Proof.
+  intro H. cbv zeta. rewrite transform_down_as_down_up. cbn [fst snd].
+  destruct (rewrite_contract im f id_cb t H) as (A & B & C & D & E).
+  rewrite <- A. repeat split; try assumption. rewrite E.
+  (* the dropped f_up events report nothing *)
+  generalize (fst (transform_down_up im f id_cb t)). intro lg.
+  induction lg as [|[[|] x] lg IH]; cbn; [reflexivity| |]; rewrite IH; reflexivity.
+Qed.
+
+Theorem transform_up_contract im f t :
+  impl_ok im id_cb f ->
+  let r := transform_up im f t in
+  let s := scan_tree id_cb f t in
+  fst r = filter is_up (s_log s) /\ rec (snd r) = tnr_of (s_mode s) /\
+  shape (data (snd r)) = shape t /\ postorder (data (snd r)) = s_post s /\
+  changed (snd r) = existsb (reported id_cb f) (fst r).
+Proof.
+  intro H. cbv zeta. rewrite transform_up_as_down_up. cbn [fst snd].
+  destruct (rewrite_contract im id_cb f t H) as (A & B & C & D & E).
+  rewrite <- A. repeat split; try assumption. rewrite E.
+  generalize (fst (transform_down_up im id_cb f t)). intro lg.
+  induction lg as [|[[|] x] lg IH]; cbn; [reflexivity| |]; rewrite IH; reflexivity.
+Qed.
+
+(* ------------------------------------------------------------------ a tree is determined by shape + post-order labels *)
+Lemma postorder_length_shape t : length (postorder t) = length (postorder (shape t)).
+Proof.
+  induction t as [l cs IH] using tree_induction. cbn. rewrite !app_length. f_equal.
+  induction IH as [|c r Hc _ IHr]; [reflexivity|]. cbn. rewrite !app_length, Hc, IHr. reflexivity.
+Qed.
+Lemma app_inv_len {A} (a c b d : list A) : length a = length c -> a ++ b = c ++ d -> a = c /\ b = d.
+Proof.
+  revert c. induction a as [|x a IH]; intros [|y c] L E; try discriminate; [auto|].
+  cbn in *. injection E as -> E. injection L as L. destruct (IH c L E) as [-> ->]. auto.
+Qed.
+Theorem shape_postorder_exact a : forall b, shape a = shape b -> postorder a = postorder b -> a = b.
+Proof.
+  induction a as [l cs IH] using tree_induction. intros [l0 cs0] Hs Hp. cbn in Hs, Hp.
+  injection Hs as Hs. apply app_inj_tail in Hp as [Hp ->]. f_equal.
+  revert cs0 Hs Hp. induction IH as [|c r Hc _ IHr]; intros [|c0 r0] Hs Hp; try discriminate; [reflexivity|].
+  cbn in Hs, Hp. injection Hs as Hs1 Hs2.
+  apply app_inv_len in Hp as [P1 P2].
+  - rewrite (Hc c0 Hs1 P1), (IHr r0 Hs2 P2). reflexivity.
+  - rewrite (postorder_length_shape c), (postorder_length_shape c0), Hs1. reflexivity.
+Qed.
+
+(* ------------------------------------------------------------------ every callback says Continue *)
+Section AllContinue.
+  Variables fd fu : rcb.
+  Hypothesis Hd : forall l, dir_of fd l = Continue.
+  Hypothesis Hu : forall l, dir_of fu l = Continue.
+  Notation k := (transform_down_up IVec fd fu).
+  Notation g := (fun l => new_label fu (new_label fd l)).
+  Definition ac_rel (t : tree) : Prop :=
+    fst (k t) = full_log fd t /\ data (snd (k t)) = relabel g t /\ rec (snd (k t)) = Continue.
+
+  Lemma mus_all_continue cs : Forall ac_rel cs -> forall tr,
+    fst (map_until_stop_from k Continue tr cs) = flat_map (full_log fd) cs /\
+    data (snd (map_until_stop_from k Continue tr cs)) = map (relabel g) cs /\
+    rec (snd (map_until_stop_from k Continue tr cs)) = Continue.
+  Proof.
+    induction 1 as [|c r (C1 & C2 & C3) _ IH]; intro tr; [cbn; auto|].
+    cbn [map_until_stop_from]. destruct (k c) as [lc resc]. cbn [fst snd bind] in *.
+    rewrite C3. specialize (IH (tr || changed resc)).
+    destruct (map_until_stop_from k Continue (tr || changed resc) r) as [lr restr].
+    cbn [bind fst snd ret data rec flat_map map] in *. destruct IH as (I1 & I2 & I3).
+    rewrite app_nil_r, C1, C2, I1, I2, I3. auto.
+  Qed.
+
+  Lemma all_continue_vec t : ac_rel t.
+  Proof.
+    induction t as [l cs IH] using tree_induction. unfold ac_rel. rewrite tdu_unfold.
+    destruct (fd l) as [[l' ch] r] eqn:E.
+    assert (Nd : new_label fd l = l') by (unfold new_label; rewrite E; reflexivity).
+    assert (r = Continue) by (pose proof (Hd l) as D; unfold dir_of in D; rewrite E in D; exact D). subst r.
+    rewrite mco_vec_unfold.
+    destruct (mus_all_continue cs IH false) as (M1 & M2 & M3).
+    destruct (map_until_stop_from k Continue false cs) as [lc rc]. cbn [fst snd] in *.
+    destruct rc as [d c r]; cbn [data changed rec] in *; subst lc d r.
+    rewrite tp_unfold.
+    destruct (fu l') as [[l'' ch2] r2] eqn:E2.
+    assert (Nu : new_label fu l' = l'') by (unfold new_label; rewrite E2; reflexivity).
+    assert (r2 = Continue) by (pose proof (Hu l') as D; unfold dir_of in D; rewrite E2 in D; exact D). subst r2.
+    cbn [fst snd data rec relabel full_log]. rewrite Nd, Nu. repeat split.
+  Qed.
+End AllContinue.
+
+Theorem all_continue_contract im fd fu t :
+  impl_ok im fd fu ->
+  (forall l, dir_of fd l = Continue) -> (forall l, dir_of fu l = Continue) ->
+  let r := transform_down_up im fd fu t in
+  fst r = full_log fd t /\
+  data (snd r) = relabel (fun l => new_label fu (new_label fd l)) t /\
+  rec (snd r) = Continue.
+Proof.
+  intros H Hd Hu. cbv zeta. rewrite (tdu_im_eq_vec im fd fu t H). exact (all_continue_vec fd fu Hd Hu t).
+Qed.
+
+Lemma full_log_downs fd t : filter is_down (full_log fd t) = downs (preorder t).
+Proof.
+  induction t as [l cs IH] using tree_induction. cbn. f_equal. rewrite filter_down_app. cbn. rewrite app_nil_r.
+  induction IH as [|c r Hc _ IHr]; [reflexivity|]. cbn. rewrite filter_down_app, Hc, IHr. unfold downs.
+  rewrite map_app. reflexivity.
+Qed.
+Lemma full_log_ups t : filter is_up (full_log id_cb t) = ups (postorder t).
+Proof.
+  induction t as [l cs IH] using tree_induction. cbn. rewrite filter_up_app. cbn. unfold ups. rewrite map_app. cbn.
+  f_equal.
+  induction IH as [|c r Hc _ IHr]; [reflexivity|]. cbn. rewrite filter_up_app, Hc, IHr. unfold ups.
+  rewrite map_app. reflexivity.
+Qed.
+Lemma relabel_id t : relabel (fun l => l) t = t.
+Proof.
+  induction t as [l cs IH] using tree_induction. cbn. f_equal.
+  induction IH as [|c r Hc _ IHr]; [reflexivity|]. cbn. rewrite Hc, IHr. reflexivity.
+Qed.
+Lemma relabel_compose f g t : relabel g (relabel f t) = relabel (fun l => g (f l)) t.
+Proof.
+  induction t as [l cs IH] using tree_induction. cbn. f_equal. rewrite map_map.
+  induction IH as [|c r Hc _ IHr]; [reflexivity|]. cbn. rewrite Hc, IHr. reflexivity.
+Qed.
+
+(* transform_down with all-Continue: f sees every node in pre-order; result = every label replaced *)
+Theorem transform_down_preorder im f t :
+  impl_ok im f id_cb -> (forall l, dir_of f l = Continue) ->
+  let r := transform_down im f t in
+  fst r = downs (preorder t) /\ data (snd r) = relabel (new_label f) t /\ rec (snd r) = Continue.
+Proof.
+  intros H Hd. cbv zeta. rewrite transform_down_as_down_up. cbn [fst snd].
+  destruct (all_continue_contract im f id_cb t H Hd (fun _ => eq_refl)) as (A & B & C).
+  rewrite A, B, C, full_log_downs. auto.
+Qed.
+
+(* transform_up with all-Continue: f sees every node in post-order *)
+Theorem transform_up_postorder im f t :
+  impl_ok im id_cb f -> (forall l, dir_of f l = Continue) ->
+  let r := transform_up im f t in
+  fst r = ups (postorder t) /\ data (snd r) = relabel (new_label f) t /\ rec (snd r) = Continue.
+Proof.
+  intros H Hu. cbv zeta. rewrite transform_up_as_down_up. cbn [fst snd].
+  destruct (all_continue_contract im id_cb f t H (fun _ => eq_refl) Hu) as (A & B & C).
+  rewrite A, B, C, full_log_ups. auto.
+Qed.
+
+(* doc: "behaves the same as calling transform_down followed by transform_up on the same node"
+   -- true for the produced tree when no callback jumps or stops *)
+Theorem down_up_is_down_then_up im fd fu t :
+  impl_ok im fd fu ->
+  (forall l, dir_of fd l = Continue) -> (forall l, dir_of fu l = Continue) ->
+  data (snd (transform_down_up im fd fu t)) =
+  data (snd (transform_up im fu (data (snd (transform_down im fd t))))).
+Proof.
+  intros H Hd Hu.
+  assert (H1 : impl_ok im fd id_cb) by (intro E; destruct (H E); split; [assumption|apply honest_id]).
+  assert (H2 : impl_ok im id_cb fu) by (intro E; destruct (H E); split; [apply honest_id|assumption]).
+  destruct (all_continue_contract im fd fu t H Hd Hu) as (_ & -> & _).
+  destruct (transform_down_preorder im fd t H1 Hd) as (_ & -> & _).
+  destruct (transform_up_postorder im fu (relabel (new_label fd) t) H2 Hu) as (_ & -> & _).
+  rewrite relabel_compose. reflexivity.
+Qed.
+
+(* ------------------------------------------------------------------ callbacks that never change a label *)
+Lemma same_label_honest f : (forall l, new_label f l = l) -> honest f.
+Proof. intros H l N. exfalso. apply N, H. Qed.
+
+Section SameLabels.
+  Variables fd fu : rcb.
+  Hypothesis Hd : forall l, new_label fd l = l.
+  Hypothesis Hu : forall l, new_label fu l = l.
+  Notation k := (transform_down_up IVec fd fu).
+  Lemma mus_same cs : Forall (fun c => data (snd (k c)) = c) cs ->
+    forall last tr, data (snd (map_until_stop_from k last tr cs)) = cs.
+  Proof.
+    induction 1 as [|c r Hc _ IH]; intros last tr; [reflexivity|].
+    destruct last; cbn [map_until_stop_from].
+    3:{ rewrite mus_stop. reflexivity. }
+    all: destruct (k c) as [lc resc]; cbn [fst snd bind] in *;
+         specialize (IH (rec resc) (tr || changed resc));
+         destruct (map_until_stop_from k (rec resc) (tr || changed resc) r) as [lr restr];
+         cbn [bind fst snd ret data] in *; rewrite Hc, IH; reflexivity.
+  Qed.
+  Lemma same_vec t : data (snd (k t)) = t.
+  Proof.
+    induction t as [l cs IH] using tree_induction. rewrite tdu_unfold.
+    pose proof (Hd l) as D. unfold new_label in D.
+    destruct (fd l) as [[l' ch] r]. cbn [fst snd] in D. subst l'.
+    pose proof (Hu l) as U. unfold new_label in U.
+    destruct r.
+    - rewrite mco_vec_unfold. pose proof (mus_same cs IH Continue false) as Hm.
+      destruct (map_until_stop_from k Continue false cs) as [lc rc]. cbn [fst snd] in Hm.
+      destruct rc as [d c r]; cbn [data changed rec] in *; subst.
+      rewrite tp_unfold. destruct r; [destruct (fu l) as [[l'' ch2] r2]; cbn in U; subst|..]; reflexivity.
+    - rewrite tp_unfold. destruct (fu l) as [[l'' ch2] r2]; cbn in U; subst. reflexivity.
+    - reflexivity.
+  Qed.
+End SameLabels.
+
+(* whatever the directives and flags: if no callback changes a label the tree comes back unchanged *)
+Theorem unchanged_labels_same_tree im fd fu t :
+  (forall l, new_label fd l = l) -> (forall l, new_label fu l = l) ->
+  data (snd (transform_down_up im fd fu t)) = t.
+Proof.
+  intros Hd Hu. rewrite tdu_im_eq_vec.
+  - apply same_vec; assumption.
+  - intros _. split; apply same_label_honest; assumption.
+Qed.
+
+(* identity callbacks: every node gets f_down and f_up, tree unchanged, transformed = false *)
+Theorem identity_rewrite im t :
+  transform_down_up im id_cb id_cb t = (full_log id_cb t, mkT t false Continue).
+Proof.
+  assert (H : impl_ok im id_cb id_cb) by (intros _; split; apply honest_id).
+  destruct (all_continue_contract im id_cb id_cb t H (fun _ => eq_refl) (fun _ => eq_refl)) as (A & B & C).
+  destruct (rewrite_contract im id_cb id_cb t H) as (_ & _ & _ & _ & E).
+  rewrite (surj (transform_down_up im id_cb id_cb t)). rewrite A in *. f_equal.
+  destruct (snd (transform_down_up im id_cb id_cb t)) as [d c r]. cbn [data changed rec] in *.
+  rewrite B, C, E. change (fun l => new_label id_cb (new_label id_cb l)) with (fun l : Z => l).
+  rewrite relabel_id. f_equal.
+  generalize (full_log id_cb t). intro lg. induction lg as [|[[|] x] lg IH]; cbn; auto.
 Qed.
